@@ -58,3 +58,9 @@ Theorem C02_write_frame : forall P s h off cnt st d hi s' n cm a,
     o_size o' = (if n =? 0 then o_size o else N.max (o_size o) (off + n)).
 Proof. exact write_frame. Qed.
 Print Assumptions C02_write_frame.
+
+(* the file-type, status and stability numbers the agreement relations read off replies are those of nfstypes *)
+From V Require Proofs.ConstsConform.
+Theorem C02_reply_constants_conform : V.Proofs.ConstsConform.reply_constants_conform.
+Proof. exact V.Proofs.ConstsConform.reply_constants_ok. Qed.
+Print Assumptions C02_reply_constants_conform.
